@@ -596,7 +596,16 @@ with lsarms :=
 | SLast (bcol : nat) (fin : option nat) (b : lbody)        (* | v ->  (Some v)   or   | _ ->  (None) *)
 | SCons (bcol : nat) (lit : nat) (b : lbody) (bl : nat) (r : lsarms).
 
-Definition lprog := list (nat * nat * lstmt).               (* blanks before, column, root let *)
+(** root items. Union cases stand at any column; the definitions of a package_info block form an offside
+    block; package / import lines are single lines *)
+Inductive lroot :=
+| RLetL (s : lstmt)
+| RUnionL (name : nat) (b0 : nat) (c0 : nat) (case0 : list nat) (cases : list (nat * nat * list nat))
+      (* type name = EOLs | case0 at column c0, then (blanks, column, case tokens)... *)
+| RInfoL (name : nat) (b0 : nat) (c0 : nat) (d0 : list nat) (defs : list (nat * nat * list nat))
+      (* package_info name = EOLs, let d0 at column c0, then (blanks, column, tokens of a let)... *)
+| RLineL (k : nat) (toks : list nat).                      (* package x / import x *)
+Definition lprog := list (nat * nat * lroot).               (* blanks before, column, root item *)
 
 Section Render.
 Variable inner : nat.
@@ -722,10 +731,29 @@ with r_sarms (a : lsarms) : list ptok :=
   | SCons bc lit b bl r => (TBAR, bc) :: (TSTR lit, inner) :: (TARROW, inner) :: r_body b ++ nl bl ++ r_sarms r
   end.
 
+Fixpoint r_cases (cs : list (nat * nat * list nat)) : list ptok :=
+  match cs with
+  | [] => []
+  | (bl, c, toks) :: cs' => nl bl ++ (TBAR, c) :: atoks toks ++ r_cases cs'
+  end.
+Fixpoint r_defs (ds : list (nat * nat * list nat)) : list ptok :=
+  match ds with
+  | [] => []
+  | (bl, c, toks) :: ds' => nl bl ++ (TLET, c) :: atoks toks ++ r_defs ds'
+  end.
+Definition r_root (c : nat) (x : lroot) : list ptok :=
+  match x with
+  | RLetL s => r_stmt c s
+  | RUnionL name b0 c0 case0 cases =>
+      (TTYPE, c) :: (TA name, inner) :: (TEQ, inner) :: nl b0 ++ (TBAR, c0) :: atoks case0 ++ r_cases cases
+  | RInfoL name b0 c0 d0 defs =>
+      (TKW 0, c) :: (TA name, inner) :: (TEQ, inner) :: nl b0 ++ (TLET, c0) :: atoks d0 ++ r_defs defs
+  | RLineL k toks => (TKW (S k), c) :: atoks toks
+  end.
 Fixpoint r_prog (p : lprog) : list ptok :=
   match p with
   | [] => []
-  | (bl, c, s) :: p' => eols bl ++ r_stmt c s ++ nl 0 ++ r_prog p'
+  | (bl, c, x) :: p' => eols bl ++ r_root c x ++ nl 0 ++ r_prog p'
   end.
 End Render.
 
@@ -820,7 +848,14 @@ with er_sarms (a : lsarms) : list rule :=
   | SCons _ lit b _ r => Rule [TSTR lit] (er_body b) :: er_sarms r
   end.
 
-Definition er_prog (p : lprog) : list root := map (fun x => RLet (er_stmt (snd x))) p.
+Definition er_root (x : lroot) : root :=
+  match x with
+  | RLetL s => RLet (er_stmt s)
+  | RUnionL name _ _ case0 cases => RType [TA name] (map TA case0 :: map (fun c => map TA (snd c)) cases)
+  | RInfoL name _ _ d0 defs => RInfo [TA name] ((TLET :: map TA d0) :: map (fun d => TLET :: map TA (snd d)) defs)
+  | RLineL k toks => ROther (TKW (S k) :: map TA toks)
+  end.
+Definition er_prog (p : lprog) : list root := map (fun x => er_root (snd x)) p.
 
 (** --- which layouts keep the block structure --- *)
 Definition bcol (b : lblock) : nat := match b with LB c _ _ => c end.
@@ -1025,10 +1060,17 @@ with wf_sarms (off : nat) (prev : option nat) (a : lsarms) : Prop :=
   end.
 
 (** root statements are lets; the next one starts left of everything the previous one left open *)
+Definition wf_root (x : lroot) : Prop :=
+  match x with
+  | RLetL s => wf_stmt 0 s /\ match s with LExpr _ => False | LLetD _ _ _ _ _ => False | _ => True end
+  | RUnionL _ _ _ _ _ => True                                (* cases are not tested against any column *)
+  | RInfoL _ _ c0 _ defs => 0 < c0 /\ Forall (fun d => c0 <= snd (fst d)) defs
+  | RLineL _ _ => True
+  end.
+Definition root_bd (x : lroot) : option nat :=
+  match x with RLetL s => stmt_bd s | RInfoL _ _ c0 _ _ => Some c0 | _ => None end.
 Fixpoint wf_prog (prev : option nat) (p : lprog) : Prop :=
   match p with
   | [] => True
-  | (_, c, s) :: p' =>
-      under prev c /\ wf_stmt 0 s /\ match s with LExpr _ => False | LLetD _ _ _ _ _ => False | _ => True end /\
-      wf_prog (stmt_bd s) p'
+  | (_, c, x) :: p' => under prev c /\ wf_root x /\ wf_prog (root_bd x) p'
   end.
